@@ -70,6 +70,7 @@ def check(rep: Report, ctx: Ctx) -> None:
     r124(rep, ctx)
     r125(rep, ctx)
     r126(rep, ctx)
+    r127(rep, ctx)
 
 
 def r18(rep: Report, ctx: Ctx) -> None:
@@ -961,3 +962,14 @@ def r126(rep: Report, ctx: Ctx) -> None:
     rep.rule("R1.26", "positional hand-offs between the functions of the "
              "pv -> puml pipeline do not cross two parameters", 1)
     crossed_handoffs(rep, ctx, "R1.26", ("tel2puml/",), 250)
+
+
+def r127(rep: Report, ctx: Ctx) -> None:
+    from .util import faithful_records
+    rep.rule("R1.27", "the records handed from phase to phase are faithful: "
+             "attributes are assigned before they are read, bases are "
+             "initialised, parameters are stored under their own names, "
+             "setters store where getters read", 30)
+    faithful_records(rep, ctx, "R1.27", (
+        "tel2puml/events.py", "loop_detection/", "puml_graph.py",
+        "walk_puml_graph/"))
